@@ -12,6 +12,7 @@ from .. import docmodel
 from ..channels import draw_read_channel, read_via
 from ..core import Prop, Result
 from ..simfs import SimFS, Policy
+from ..swarm import neutral_read_kw, fix_kw
 
 SPELL = {
     "V": ["~V", "~Version", "~Version Information", "~VERSION INFORMATION SECTION", "~V ------"],
@@ -126,7 +127,7 @@ class C05(Prop):
                 if s["kind"] != "O" and g.random() < 0.3:      # inside ~Other every line is content
                     s["blank_after"] = [g.choice(["", "# comment", "   "])]
         return {"vers": vers, "sections": [v] + pool, "cols": cols, "rows": rows, "final_newline": g.random() < 0.7,
-                "engine": g.choice(["numpy", "normal"]), "ignore_data": g.random() < 0.15,
+                "nkw": neutral_read_kw(g, exclude=("ignore_data",)), "engine": g.choice(["numpy", "normal"]), "ignore_data": g.random() < 0.15, "case": g.choice(["preserve", "preserve", "upper", "lower"]),
                 "channel": draw_read_channel(g, ascii_only=True),
                 "policy": Policy.draw(st.io).to_json()}
 
@@ -136,7 +137,7 @@ class C05(Prop):
         fs = SimFS(policy=Policy.from_json(sc["policy"]))
         with fs:
             try:
-                kw = {"engine": sc["engine"], "mnemonic_case": "preserve"}
+                kw = fix_kw(dict(sc.get("nkw") or {}, engine=sc["engine"], mnemonic_case=sc.get("case", "preserve")))
                 if sc.get("ignore_data"):
                     kw["ignore_data"] = True
                 las = read_via(fs, text, sc["channel"], kw, tag="c05")
@@ -170,8 +171,9 @@ class C05(Prop):
                 res.violate("C05.items", "section %r has items %r, expected %r (titles=%r)" % (
                     name, [x[0] for x in gi], [x[0] for x in want[1]], titles))
                 return res
+            cf = {"upper": str.upper, "lower": str.lower}.get(sc.get("case", "preserve"), str)
             for x, y in zip(gi, want[1]):
-                ok = x[0] == y[0] and x[1] == y[1] and x[3] == y[3] and self.veq(x[2], y[2])
+                ok = x[0] == cf(y[0]) and x[1] == y[1] and x[3] == y[3] and self.veq(x[2], y[2])
                 if not ok:
                     res.violate("C05.items", "section %r item %r read as %r (titles=%r)" % (name, y, x, titles))
                     return res
